@@ -2374,3 +2374,8 @@ V(id='c29-polyroots-no-exact-real-key', prop='C29', file='mpmath/calculus/polyno
 V(id='c29-polyroots-reals-last', prop='C29', file='mpmath/calculus/polynomials.py',
   old="        order = sorted(range(deg), key=lambda i: (ctx._im(roots[i]) != 0,", new="        order = sorted(range(deg), key=lambda i: (ctx._im(roots[i]) == 0,",
   expect='fire:R-P3:polyroots')
+
+# ---- C24 T-R13 (seed C24-9) ----
+V(id='c24-theta3a-tolerance-from-vanishing-term', prop='C24', file='mpmath/functions/theta.py',
+  old="    s = term = n**nd * a\n    if n != 0:\n        eps1 = ctx.eps*abs(term)\n    else:\n        eps1 = ctx.eps*abs(a)\n",
+  new="    s = term = n**nd * a\n    eps1 = ctx.eps*abs(term)\n", expect='fire:T-R13:_djacobi_theta3a')
